@@ -706,42 +706,42 @@ theorem Game.pieceMoves_pseudo_iff (g : Game) {pc : Piece} {p : Pos} (hp : p.Val
 /-! ## Non-vacuity: a concrete position on which hypotheses and conclusions are exercised -/
 
 /-- white Ke1, Qd2, Ng1; black Ra1, Ke8; white to move -/
-def demoBoard : Vector (Option Piece) 64 :=
+def demoBoard_x : Vector (Option Piece) 64 :=
   (((((Vector.replicate 64 none).set 4 (some ⟨.king, .white⟩)).set 0 (some ⟨.rook, .black⟩)).set 60
     (some ⟨.king, .black⟩)).set 11 (some ⟨.queen, .white⟩)).set 6 (some ⟨.knight, .white⟩)
 
-def demo : Game :=
+def demo_x : Game :=
   { score := 0, player := .white, moveStack := [], endgame := false, hash := 0,
-    board := demoBoard, pastScores := Vector.replicate 64 0, pastHashes := Vector.replicate 64 0,
+    board := demoBoard_x, pastScores := Vector.replicate 64 0, pastHashes := Vector.replicate 64 0,
     wking := ⟨0, 4⟩, bking := ⟨7, 4⟩, state := [8] }
 
 -- the rook on a1 gives check along the first rank: both sides of the main theorem are `true`
-example : demo.isTargeted ⟨0, 4⟩ .white = true := by decide
-example : attacked demo.abs (0, 4) .black = true := by decide
-example : demo.firstOnRay ⟨0, 4⟩ (0, -1) 7 = some ⟨.rook, .black⟩ := by decide
+example : demo_x.isTargeted ⟨0, 4⟩ .white = true := by decide
+example : attacked demo_x.abs (0, 4) .black = true := by decide
+example : demo_x.firstOnRay ⟨0, 4⟩ (0, -1) 7 = some ⟨.rook, .black⟩ := by decide
 -- … and both are `false` one square up
-example : demo.isTargeted ⟨1, 4⟩ .white = false := by decide
-example : attacked demo.abs (1, 4) .black = false := by decide
+example : demo_x.isTargeted ⟨1, 4⟩ .white = false := by decide
+example : attacked demo_x.abs (1, 4) .black = false := by decide
 -- the main theorem instantiated
-example : demo.isTargeted ⟨0, 4⟩ .white = attacked demo.abs (0, 4) .black :=
-  demo.isTargeted_iff_attacked (p := ⟨0, 4⟩) (by decide) .white
+example : demo_x.isTargeted ⟨0, 4⟩ .white = attacked demo_x.abs (0, 4) .black :=
+  demo_x.isTargeted_iff_attacked (p := ⟨0, 4⟩) (by decide) .white
 -- the hypotheses of `kingSafe_iff'` hold here
-example : (demo.kingPos .white).Valid ∧ kingSq demo.abs .white = some (0, 4) := by decide
-example : (!demo.isTargeted (demo.kingPos .white) .white) = !inCheck demo.abs .white :=
-  demo.kingSafe_iff' .white (by decide) (by decide)
+example : (demo_x.kingPos .white).Valid ∧ kingSq demo_x.abs .white = some (0, 4) := by decide
+example : (!demo_x.isTargeted (demo_x.kingPos .white) .white) = !inCheck demo_x.abs .white :=
+  demo_x.kingSafe_iff' .white (by decide) (by decide)
 -- the generators are not empty and the pseudo-legal set is not empty
-example : (demo.knightMoves ⟨.knight, .white⟩ ⟨0, 6⟩).length = 3 := by decide
-example : (demo.pieceMoves ⟨.queen, .white⟩ ⟨1, 3⟩).length = 22 := by decide
-example : pseudo demo.abs ⟨(0, 6), (2, 5), none⟩ = true := by decide
-example : ∃ m ∈ demo.pieceMoves ⟨.knight, .white⟩ ⟨0, 6⟩, m.toSpec = ⟨(0, 6), (2, 5), none⟩ :=
-  (demo.pieceMoves_pseudo_iff (p := ⟨0, 6⟩) (by decide) (by decide) (by decide) (by decide)
+example : (demo_x.knightMoves ⟨.knight, .white⟩ ⟨0, 6⟩).length = 3 := by decide
+example : (demo_x.pieceMoves ⟨.queen, .white⟩ ⟨1, 3⟩).length = 22 := by decide
+example : pseudo demo_x.abs ⟨(0, 6), (2, 5), none⟩ = true := by decide
+example : ∃ m ∈ demo_x.pieceMoves ⟨.knight, .white⟩ ⟨0, 6⟩, m.toSpec = ⟨(0, 6), (2, 5), none⟩ :=
+  (demo_x.pieceMoves_pseudo_iff (p := ⟨0, 6⟩) (by decide) (by decide) (by decide) (by decide)
     (by decide) _).1 ⟨by decide, rfl⟩
 
 /-- **Remark on task item 1.** Off the board `Spec.APos.at` reads `none` (`APos.at_offBoard`), but
 `Game.get` does *not*: it only tests `idx < 64`, and `idx` aliases, e.g. `⟨0, 11⟩` with `⟨1, 3⟩`.
 Every square the scanners read comes out of `Pos.add`, hence is valid, so this never matters for
 `isTargeted` — but "`get` is `none` off the board" is false as a statement about the model. -/
-example : demo.get ⟨0, 11⟩ = some ⟨.queen, .white⟩ ∧ demo.abs.at (0, 11) = none := by decide
+example : demo_x.get ⟨0, 11⟩ = some ⟨.queen, .white⟩ ∧ demo_x.abs.at (0, 11) = none := by decide
 
 end Chess
 
